@@ -45,6 +45,9 @@ func (g *Gen) callExternal(e *Ev, fn *types.Func, recv *Term, args []Term, n *as
 	info := externals[key]
 	g.Assumed["external "+key+": deterministic function of its arguments, "+ifs(info.mayPanic, "may panic", "does not panic")+ifs(info.note != "", "; "+info.note, "")] = true
 	sig := fn.Type().(*types.Signature)
+	if e.instSig != nil {
+		sig = e.instSig
+	}
 	var sorts, as []string
 	addArg := func(a Term) {
 		if a.UConst != nil {
@@ -117,12 +120,8 @@ func (g *Gen) callExternal(e *Ev, fn *types.Func, recv *Term, args []Term, n *as
 			s = app(fname, as...)
 		}
 		if rs == sSlice {
-			// a returned slice is a fresh allocation whose header is well-formed
-			nm := g.freshName("extslice")
-			e.st.declare(nm, sSlice)
-			fr := e.freshRef("ext")
-			e.define(fmt.Sprintf("(and (= (sarr %s) %s) (= (soff %s) 0) (<= 0 (slen %s)) (<= (slen %s) (scap %s)))", nm, fr, nm, nm, nm, nm))
-			s = nm
+			// a returned slice is a deterministic function of the arguments, with a well-formed header
+			e.st.assume(fmt.Sprintf("(and (<= 0 (soff %s)) (<= 0 (slen %s)) (<= (slen %s) (scap %s)))", s, s, s, s))
 		}
 		results = append(results, Term{S: s, Sort: rs, T: rt, Signed: isSigned(rt)})
 	}
